@@ -1,8 +1,8 @@
 """C07 The acceptance quantity equals the documented local error estimate."""
-from contracts import errors
+from contracts import errors, lemmas
 
 LEVEL = "proof"
 
 
 def contracts():
-    return list(errors.norm_contracts) + [errors.estimator_contract(c) for c in errors.configs("thorough")]
+    return list(errors.norm_contracts) + [errors.estimator_contract(c) for c in errors.configs("thorough")] + [lemmas.equivariance_contract()]
